@@ -196,15 +196,18 @@ func coqTerm(idx int, c *Case, obs map[string]interface{}) string {
 		}
 		name, _ := obs["name"].(string)
 		kind, _ := obs["kind"].(string)
-		flat := "None"
-		if ok, _ := obs["flat_ok"].(bool); ok {
+		flat := "FErr"
+		switch st, _ := obs["flat_ok"].(string); st {
+		case "ok":
 			var xs []string
 			if fl, ok := obs["flat"].([]interface{}); ok {
 				for _, a := range fl {
 					xs = append(xs, vh.CoqString(a.(string)))
 				}
 			}
-			flat = "(Some " + vh.CoqList(xs) + ")"
+			flat = "(FOk " + vh.CoqList(xs) + ")"
+		case "panic":
+			flat = "FPanic"
 		}
 		return fmt.Sprintf("(%d, PCase %s %s %s %s %s %s)", idx, term, vars, vh.CoqList(codes), vh.CoqString(name), vh.CoqString(kind), flat)
 	case "bomb":
